@@ -85,7 +85,9 @@ type v5sSnapRec struct {
 	parts []*partWrapper
 	ps    []*part // pw.p at record time (a released memory part's wrapper forgets it)
 	mem   []bool
+	ids   []uint64
 	epoch uint64
+	count uint64 // elements held by the parts (sum of the part metadata), taken while the snapshot was current
 }
 
 // V5STable drives a real stream tsTable through its step functions; the background loops are never started, the
@@ -135,6 +137,8 @@ func (v *V5STable) Record() {
 	for _, pw := range r.parts {
 		r.ps = append(r.ps, pw.p)
 		r.mem = append(r.mem, pw.mp != nil)
+		r.ids = append(r.ids, pw.ID())
+		r.count += pw.p.partMetadata.TotalCount
 	}
 	v.seen[s] = r
 	v.recs = append(v.recs, r)
@@ -727,3 +731,132 @@ func (v *V5STable) NextEpoch() uint64 { return v.epoch }
 
 // PartDir is the directory of a file part.
 func (v *V5STable) PartDir(id uint64) string { return partPath(v.tst.root, id) }
+
+// V5SPub is one snapshot that was current at some instant, as recorded while it was current.
+type V5SPub struct {
+	Parts    []uint64
+	Epoch    uint64
+	Elements uint64 // sum over its parts of the element count in the part metadata
+}
+
+// Published lists every recorded snapshot.
+func (v *V5STable) Published() []V5SPub {
+	v.Record()
+	var out []V5SPub
+	for _, r := range v.recs {
+		out = append(out, V5SPub{Epoch: r.epoch, Elements: r.count, Parts: append([]uint64(nil), r.ids...)})
+	}
+	return out
+}
+
+// PrepareWriteSeg is PrepareWrite for a liaison write-queue shard: the memory part carries the id of the segment the
+// batch belongs to (tsTable.mustAddElementsWithSegmentID); 0 = standalone table.
+func (v *V5STable) PrepareWriteSeg(rows []V5SRow, seg int64) *V5SIntro {
+	in := v.PrepareWrite(rows)
+	in.ind.part.mp.segmentID = seg
+	return in
+}
+
+// V5SMemMerge runs the flusher's real memory-part merge step (tsTable.mergeMemParts: group the memory parts of the
+// pinned snapshot by segment, merge every group of >= 2, hand each result to the introducer over the merge channel
+// and wait until it is applied) as one scheduled thread against a second scheduled thread playing the introducer
+// loop. Channels are not hooked, so a bridge goroutine receives the introduction from the real channel and parks the
+// flusher thread in the scheduler (the flusher goroutine itself sits in `<-mi.applied`) until the introducer thread
+// has applied it; the bridge then closes `applied`. Exactly one goroutine runs at any time. Needs sched.CheckGoid =
+// false (the bridge acts for the flusher thread) and an attached scheduler.
+type V5SMemMerge struct {
+	Err     error
+	v       *V5STable
+	ch      chan *mergerIntroduction
+	pending *mergerIntroduction
+	wApply  *v5sAwaitApplied
+	wWork   *v5sAwaitWork
+	// Applied = introductions the introducer thread applied
+	Applied int
+	Merged  bool
+	done    bool
+	aborted bool
+}
+
+type v5sAwaitApplied struct{ m *V5SMemMerge }
+
+func (b *v5sAwaitApplied) CanProceed(sched.Kind) bool { return b.m.pending == nil }
+
+type v5sAwaitWork struct{ m *V5SMemMerge }
+
+func (b *v5sAwaitWork) CanProceed(sched.Kind) bool { return b.m.pending != nil || b.m.done }
+
+// NewMemMerge prepares the pair of thread bodies.
+func (v *V5STable) NewMemMerge() *V5SMemMerge {
+	m := &V5SMemMerge{v: v, ch: make(chan *mergerIntroduction)}
+	m.wApply, m.wWork = &v5sAwaitApplied{m: m}, &v5sAwaitWork{m: m}
+	return m
+}
+
+// RunFlusher is the flusher thread: pin the current snapshot (as the flusher loop does), mergeMemParts, unpin.
+func (m *V5SMemMerge) RunFlusher() {
+	defer func() { m.done = true }()
+	tst := m.v.tst
+	snp := tst.currentSnapshot()
+	if snp == nil {
+		return
+	}
+	bridgeDone := make(chan struct{})
+	go m.bridge(bridgeDone)
+	func() {
+		defer func() {
+			close(m.ch)
+			<-bridgeDone
+		}()
+		m.Merged, m.Err = tst.mergeMemParts(snp, m.ch)
+	}()
+	snp.decRef()
+}
+
+func (m *V5SMemMerge) bridge(done chan struct{}) {
+	defer close(done)
+	for mi := range m.ch {
+		m.await(mi)
+		close(mi.applied)
+	}
+}
+
+func (m *V5SMemMerge) await(mi *mergerIntroduction) {
+	defer func() {
+		if r := recover(); r != nil {
+			// the execution was aborted while the flusher thread was parked: let the flusher goroutine run out
+			m.aborted = true
+			m.pending = nil
+		}
+	}()
+	if m.aborted || !sched.Active() {
+		m.aborted = true
+		return
+	}
+	m.pending = mi
+	sched.Point(sched.KUser, m.wApply, "flusher:await-applied")
+}
+
+// RunIntroducer is the introducer thread: it applies every merge introduction the flusher hands over
+// (introduceMerged with the next epoch, then the manifest gc, as the introducer loop does) and ends when the flusher
+// step is over. after runs right after each publication (harness observation).
+func (m *V5SMemMerge) RunIntroducer(after func()) {
+	for {
+		sched.Point(sched.KUser, m.wWork, "introducer:await-introduction")
+		if m.pending == nil {
+			return
+		}
+		// the loop closes `applied` at the end of introduceMerged; here the bridge does it once this thread is done
+		// with the publication, so the introduction is applied from a copy without the channel
+		cp := *m.pending
+		cp.applied = nil
+		m.v.tst.introduceMerged(&cp, m.v.epoch)
+		m.v.epoch++
+		m.v.tst.gc.clean()
+		if after != nil {
+			after()
+		}
+		m.Applied++
+		m.pending = nil
+	}
+}
